@@ -15,7 +15,11 @@
 (*         "ndarray" = the matrix type the problem was given in             *)
 (*         (ndarray: X column-major, y an Array1 with negative stride --    *)
 (*         logically the same data, so the same contract applies)          *)
-(*   fits  sequence of [solver, status, fin, W, B, Yhat]                   *)
+(*   fits  sequence of [solver, built, status, fin, W, B, Yhat]            *)
+(*         built = how the parameter object was made: "literal" or the     *)
+(*         order of the chained with_alpha / with_normalize / with_solver  *)
+(*         calls (rotating per fit; all describe the same parameters, so   *)
+(*         the same gradient clauses decide)                               *)
 (*         status "ok" | "err" | "panic"; fin = all outputs finite and     *)
 (*         inside the quantiser's range (W, B, Yhat are only meaningful    *)
 (*         when status = "ok" and fin)                                     *)
